@@ -104,6 +104,11 @@ func (w *pWorld) podBusy(pod string) bool {
 		if q.pod == pod && !q.finished {
 			return true
 		}
+		// a reply goroutine the request may have left behind reaches the lock within microseconds of the request's return;
+		// until then it is in no waiter list yet
+		if d := atomic.LoadInt64(&q.doneAt); q.pod == pod && d != 0 && time.Now().UnixNano()-d < int64(5*time.Millisecond) {
+			return true
+		}
 	}
 	// a request that was served from the cache and then cancelled leaves a reply goroutine behind that still wants the
 	// pool lock; the model (and the theorems) assume requests of one pod do not overlap in the pool, so the pod stays
@@ -167,6 +172,7 @@ func (w *pWorld) opAlloc(ctx context.Context, pod string, nocache bool, pin stri
 		w.roleMu.Unlock()
 		res, err := w.mgr.Allocate(cctx, &daemon.CNI{PodID: podID, PodName: pod, PodNamespace: "ns"}, &eni.AllocRequest{ResourceRequests: []eni.ResourceRequest{req}})
 		q.res, q.err = res, err
+		atomic.StoreInt64(&q.doneAt, time.Now().UnixNano())
 		if err != nil && len(res) > 0 {
 			// what AllocIP does with a failed Allocate: roll back what it returned, except what the pod's
 			// record already names (notRecorded)
